@@ -515,3 +515,23 @@ def iteration_avoiding(fn, header, body, stop_block_pred):
 
 def block_has(fn, b, pred):
     return any(pred(Pos(b, i), e) for i, e in enumerate(fn.blocks[b]["elems"]))
+
+
+# ---------------------------------------------------------------------------------------------
+# "when the wait flag is true, the task set is waited on" (C12 / C15 completion clause)
+# ---------------------------------------------------------------------------------------------
+def flag_false_edges(fn, is_flag):
+    """Branch edges taken when the boolean flag expression is false: (block, succ index)."""
+    out = set()
+    for b, t in fn.branch_blocks():
+        a, pol = normalize_cond(t["cond"], True)
+        if is_flag(strip_casts(a)):
+            out.add((b, 1 if pol else 0))
+    return out
+
+
+def path_without_wait(fn, is_flag, is_wait_event):
+    """A path from entry to the normal exit along which the flag is true at every test and no
+    waiting event happens, or None."""
+    removed = flag_false_edges(fn, is_flag)
+    return fn.path_to_exit_avoiding(Pos(fn.entry, -1), is_wait_event, removed_edges=removed), removed
